@@ -25,5 +25,20 @@ Proof.
   destruct (run E D apps st evs) as [[stf rec] num]. exact (proj1 H Hs).
 Qed.
 
+From Lospan Require Import Model.Steps Proof.SchedProof.
+(* The concurrent clause ("however the copies arrive ... concurrently through several gateways") is FALSE
+   of the model of the present code; the witnesses are schedules of two handlers of one strict-counter device,
+   computed with the concrete cipher. The same schedules are forced on the real pipeline by the check
+   (KNOWN_FINDINGS.txt: sched-copies-recorded-twice, sched-expected-counter-regressed). *)
+Theorem C03_concurrent_copies_refuted :
+  exists sched st p q, d_relaxed (w_dev 5 3) = false /\ ds_inbox st = [] /\
+    length (ds_inbox (fst (interleave [9%N] sched 60 st p q []))) = 2%nat.
+Proof. exact concurrent_copies_recorded_twice_refuted. Qed.
+Theorem C03_concurrent_regression_refuted :
+  length (ds_inbox (fst consecutive_result)) = 2%nat /\ option_map d_fup (ds_row (fst consecutive_result)) = Some 6%N.
+Proof. exact concurrent_counter_regression_refuted. Qed.
+
 Print Assumptions C03_step.
 Print Assumptions C03_seq.
+Print Assumptions C03_concurrent_copies_refuted.
+Print Assumptions C03_concurrent_regression_refuted.
